@@ -88,3 +88,9 @@ C("C01",
   "Trusted: the reference validity predicate and trace generator of the harness; release build with overflow checks (debug-only validation inside the prover is not exercised). Coin exhaustion (FailedToDrawFieldElement) is outside the claim and counted.",
   "reference-predicate-driven acceptance monitor over boundary-first + random instance generation",
   "DESIGN.md §5 C01")
+
+C("C02",
+  "For shapes of the C01 family (n = 8..64, up to 7 columns, aux segments, all field/hasher/extension combinations) every (column, step) cell of a valid trace is corrupted in turn (+1 or a random value) and proven with unchanged public inputs by the release prover; an independent reference validity predicate decides the expected verdict: still valid (only exempt transitions touched, no asserted cell) -> must be accepted, invalid -> must be rejected. Rejections are counted per step class (first step, rows around the exemption boundary, last step, asserted cells per assertion kind). The honest proof is then verified against perturbed assertion values and perturbed computation descriptions. ~1.5e4 proofs per quick run.",
+  "Trusted: reference validity predicate; rejection at the OOD check is probabilistic with failure probability <= 2^-45, statement binding of degenerate traces goes through query positions (options with >= 40 bits of position entropy). A finite corruption set is not a soundness proof.",
+  "reference-predicate-driven adversarial monitor: cell-by-cell trace corruption and statement perturbation",
+  "DESIGN.md §5 C02")
